@@ -271,6 +271,7 @@ def normalise(o):
     o.pop("default", None)
     for q in o.get("questions", []):
         q.pop("faults", None)
+        q.pop("advance_ms", None)
     return o
 
 
